@@ -78,6 +78,15 @@ def units(tier, seed):
 
 
 # ------------------------------------------------------------ round trip
+def strip_paths(doc):
+  if isinstance(doc, dict):
+    return {k: strip_paths(v) for k, v in sort_sets(doc).items()
+            if k != 'paths'}
+  if isinstance(doc, list):
+    return [strip_paths(v) for v in doc]
+  return doc
+
+
 def sort_sets(doc):
   """Sorts the items of set/frozenset objects in a parsed document."""
   if isinstance(doc, dict):
@@ -153,6 +162,13 @@ def roundtrip(value, res, case, label):
     return bad('second-dump-raises', repr(e))
   res.transitions += 1
   if text2 != text:
+    if sort_sets(json.loads(text2)) != sort_sets(doc) and (
+        strip_paths(json.loads(text2)) == strip_paths(doc)) and (
+            'vfx.nodes' in text and '"Tmp"' in text):
+      # the documents differ only in the debug "paths" recorded for the
+      # temporaries that a user-registered traverser creates while flattening
+      return bad('second-dump-differs-only-in-debug-paths/temporaries',
+                 f'{text[:300]}\n vs {text2[:300]}')
     if sort_sets(json.loads(text2)) != sort_sets(doc):
       return bad('second-dump-differs', f'{text[:400]}\n vs {text2[:400]}')
   res.outcomes[f'{label}:ok'] += 1
@@ -191,6 +207,12 @@ def leaf_values():
   # registered by-value constants and the primitives they are equal to
   out += [N.HALF, N.ONE, N.AUTO, 1, 1.0, 'auto', [0.5, N.HALF, 'auto', N.AUTO],
           {0.5: 'half', 'auto': 1, 1: 'one'}]
+  # two objects that share module + qualified name in one document, either
+  # order; interned dict-based objects
+  out += [[N.MakerBase.make, N.MakerSub.make], [N.MakerSub.make,
+                                                 N.MakerBase.make],
+          [N.node, N.node_wrapped], [N.node_wrapped, N.node],
+          [N.InternObj('a', 1), N.InternObj('b', [2])]]
   out += [fdl.NO_VALUE, N.CONST, N.DictObj([1], N.CONST),
           N.DictObj(N.DictObj(1, 2), {'k': 3})]
   out += [int, N.Base, N.node, N.Pair, len, dict, N.Base.__init__,
@@ -277,6 +299,7 @@ def kinds():
       'ddict1': K('ddict1', 1, False, lambda v: collections.defaultdict(
           list, {'a': v[0]})),
       'dobj': K('dobj', 2, False, lambda v: N.DictObj(*v)),
+      'tmp': K('tmp', 2, False, lambda v: N.Tmp(*v)),
       # different callables / classes with the same name in two modules
       'pa_thing': K('pa_thing', 2, True, mk(fdl.Config, pa_common.Thing), True),
       'pb_thing': K('pb_thing', 2, True, mk(fdl.Config, pb_common.Thing), True),
@@ -288,6 +311,7 @@ FULL = ['cfg', 'cls', 'par', 'argf', 'pos', 'tv', 'list2', 'tuple2', 'dict2',
         'set1', 'nt', 'ddict1', 'dobj']
 SMALL = ['cfg', 'par', 'list2', 'dict2', 'dobj']
 SAMENAME = ['pa_thing', 'pb_thing', 'pa_make', 'list2']
+TEMPS = ['cfg', 'tmp', 'list2']
 SHAPE_LEAVES = ['L1', N.Color.RED]
 
 
@@ -295,7 +319,7 @@ def all_shape_cases(b):
   kk = kinds()
   seen = set()
   for menu, n, nl in ([FULL, b['n'], 2], [SMALL, b['n_small'], 1],
-                      [SAMENAME, 3, 1]):
+                      [SAMENAME, 3, 1], [TEMPS, 3, 1]):
     for s in shapes.all_shapes([kk[m] for m in menu], n, nl):
       if s not in seen:
         seen.add(s)
